@@ -63,6 +63,10 @@ func progName(r *prng.R) string {
 		return strings.Repeat("n", prng.Pick(r, []int{1, 95, 96, 97, 240, 241, 2287, 2288, 4095, 4096, 4097, 5000}))
 	case 2:
 		return "dir/é→.bcl"
+	case 3:
+		if r.Chance(1, 6) {
+			return strings.Repeat("N", prng.Pick(r, []int{65535, 65536, 65537, 67823, 67824, 70000}))
+		}
 	}
 	return "f.bcl"
 }
